@@ -1,5 +1,7 @@
 import Qentem.Proofs.TmplText
 import Qentem.Proofs.ExprScanSafe
+import Qentem.Proofs.TmplRenderSafe
+import Qentem.Proofs.TmplParseVarRaw
 import Qentem.Generated.Tmpl
 /-!
 # C01 — rendering any template text with any value is memory-safe and terminates
@@ -10,11 +12,17 @@ Proved here (for every content, every character width — code units are `Nat`):
 * `finder_safe_total`  `Finder::Next` never reads at or beyond `length`, returns an offset
   `≤ length`, reports "no match" only at the end of the content, and every match moves forward.
 * `expr_scan_safe`  the expression scanner inside a tag performs no out-of-range read.
+* `render_safe_of_wf`  rendering a well-formed tag tree performs no out-of-range access.
+* `parse_wf_inline`, `render_safe_inline`  stages 1+2 of `parse_wf` (var, raw, math): no out-of-range
+  access in parse + render for contents whose tags are `{var:}`, `{raw:}`, `{math:}`.
+* `parse_wf_varraw`, `render_safe_varraw`  stage 1 of `parse_wf`: contents whose only tags are
+  `{var:}` / `{raw:}` parse to a well-formed tree, hence parse+render is free of out-of-range accesses.
 * `parse_text`, `render_text`  content without `{` and `<` parses to no tags without a failing read
   and renders to itself for every value.
 Open (statements below, decided run by run through the correspondence / sanitizer streams of
 `checks/c01.py`): `ParseSafe` (the whole tag scanner never fails a checked read, for every
-content), `RenderSafe` (rendering what `parse` produced never fails, for every value).
+content), `ParseWF` (what `parse` returns is well-formed; with `render_safe_of_wf` it gives `RenderSafe`),
+`RenderSafe` (rendering what `parse` produced never fails, for every value).
 -/
 namespace Qentem.Props.C01
 open Qentem.Tmpl Qentem.Generated.Tmpl Qentem.Expr
@@ -80,6 +88,67 @@ theorem expr_scan_safe {R : Type} (cfg : ScanCfg R) (c : List Nat) (off endO : N
 /-- the hypothesis is needed: the public `ParseExpressions("1<", 2)` looks one unit past the
 buffer (out of contract: no terminator).  Observed on the real code as an ASan report. -/
 example : getOperation [49, 60] 2 10 0 = .error (.oobRead 2 2) := by rfl
+
+/-- `render_safe_of_wf`: rendering a well-formed tag tree (`wf`, `Model/Tmpl/WF.lean`: siblings
+ordered and disjoint inside their parent's range, every range inside the content, variable names
+followed by a unit of the content, loop-bound variables referring to an enclosing loop's level,
+inline-if start ids inside the sub-tag list) performs no out-of-range access — no content read past
+the end, no negative-length write, no `loops_items_[Level]` or `s_tag + id` beyond the arrays — for
+every value, every fuel, every formatter/group/sort, given the bound check of 487b090. -/
+theorem render_safe_of_wf {R : Type} [RealLike R] (cx : RCtx R) (hg : cx.guardIndexRead = true)
+    (tags : List (Tag R)) (hw : wf cx.content.length tags = true) (fuel : Nat) :
+    Safe (renderTop cx tags fuel) (fun _ => True) :=
+  Qentem.Tmpl.render_safe_of_wf cx hg tags hw fuel
+
+/-- non-vacuity: the tag tree of `x{var:a}` is well-formed -/
+example : wf 8 ([Tag.var ⟨6, 1, 0, 0⟩] : List (Tag Rat)) = true := by decide
+
+/-- `parse_wf`, stage 1 (var / raw): if from no offset the Finder reports anything but `}`, `{var:`
+or `{raw:` (`OnlyVarRaw`; decidable form `onlyVarRawB`), `parse` makes no failing read and returns a
+well-formed tag list — every content (below the 32-bit size limit), every number reader. -/
+theorem parse_wf_varraw {R : Type} (cfg : ScanCfg R) (c : List Nat)
+    (hn : c.length + 16 < 4294967296) (h : OnlyVarRaw c) :
+    ∃ tags, parse cfg c = .ok tags ∧ wf c.length tags = true :=
+  Qentem.Tmpl.parse_wf_varraw cfg c hn h
+
+/-- End-to-end for that sub-language: parse + render makes no out-of-range access, for every
+value, formatter and escape setting. -/
+theorem render_safe_varraw {R : Type} [RealLike R] (cx : RCtx R) (hg : cx.guardIndexRead = true)
+    (cfg : ScanCfg R) (hn : cx.content.length + 16 < 4294967296) (h : OnlyVarRaw cx.content)
+    (fuel : Nat) :
+    Safe ((parse cfg cx.content).bind (fun tags => renderTop cx tags fuel)) (fun _ => True) :=
+  Qentem.Tmpl.render_safe_varraw cx hg cfg hn h fuel
+
+/-- non-vacuity: `x{var:a}}{raw:b[0]}` satisfies the hypothesis -/
+example : OnlyVarRaw ("x{var:a}}{raw:b[0]}".toList.map Char.toNat) :=
+  onlyVarRaw_of_check _ (by decide)
+
+/-- `parse_wf`, stages 1+2 (var / raw / math — the staged target of the design): if from no
+offset the Finder reports a match above `{math:` (`OnlyUpTo 4`; decidable form `onlyUpToB 4`), the
+tag scanner — including the expression scanner on every `{math:…}` with any nested `{var:…}` and
+parentheses — makes no out-of-range read and what it returns is well-formed. -/
+theorem parse_wf_inline {R : Type} (cfg : ScanCfg R) (c : List Nat)
+    (hn : c.length + 16 < 4294967296) (h : OnlyUpTo 4 c) :
+    Safe (parse cfg c) (fun tags => wf c.length tags = true) :=
+  Qentem.Tmpl.parse_wf_inline cfg c hn h
+
+/-- End-to-end for the inline sub-language (text, `{var:}`, `{raw:}`, `{math:}`): parse + render
+makes no out-of-range access, for every value, formatter and escape setting. -/
+theorem render_safe_inline {R : Type} [RealLike R] (cx : RCtx R) (hg : cx.guardIndexRead = true)
+    (cfg : ScanCfg R) (hn : cx.content.length + 16 < 4294967296) (h : OnlyUpTo 4 cx.content)
+    (fuel : Nat) :
+    Safe ((parse cfg cx.content).bind (fun tags => renderTop cx tags fuel)) (fun _ => True) :=
+  Qentem.Tmpl.render_safe_inline cx hg cfg hn h fuel
+
+/-- non-vacuity: `{math:({var:a}+1)*2}}{var:b}` satisfies the hypothesis -/
+example : OnlyUpTo 4 ("{math:({var:a}+1)*2}}{var:b}".toList.map Char.toNat) :=
+  onlyUpTo_of_check 4 _ (by decide)
+
+/-- Open statement: what `parse` returns is well-formed (`parse_wf`).  Evaluated on every generated
+and malformed template of `checks/c01.py` through the driver op `tplwf`. -/
+def ParseWF : Prop :=
+  ∀ (R : Type) (cfg : ScanCfg R) (c : List Nat) (tags : List (Tag R)),
+    parse cfg c = .ok tags → wf c.length tags = true
 
 /-- Open statement: the tag scanner never fails a checked read (for every content and every
 number reader). -/
